@@ -175,18 +175,55 @@ impl GraphEngine {
 
     /// Creates a B-Tree index for the given label and property.
     ///
-    /// If the index already exists, this is a no-op.
-    /// Note: This MVP does not backfill existing data. The index will only track
-    /// valid data inserted *after* index creation.
+    /// If the index already exists, this is a no-op. Nodes that already carry the label and
+    /// the property are entered into the new index (look-ups only fall back to a scan when
+    /// the index has no entry for a value, so a partially filled index would hide them).
     pub fn create_index(&self, label: &str, field: &str) -> Result<()> {
-        let mut catalog = self.index_catalog.lock().unwrap();
+        // Like compaction: no commit may run between reading the existing data and
+        // registering the index.
+        let _guard = self.write_lock.lock().unwrap();
+
         let name = format!("{}.{}", label, field);
-        if catalog.get(&name).is_some() {
+        if self.index_catalog.lock().unwrap().get(&name).is_some() {
             return Ok(());
         }
 
+        // Collect the existing entries before taking the catalog/pager locks (property
+        // reads take the pager lock themselves).
+        let mut existing: Vec<(Vec<u8>, InternalNodeId)> = Vec::new();
+        {
+            use crate::read_path_convert::convert_property_to_storage as to_storage;
+            let snapshot = self.snapshot();
+            if let Some(label_id) = snapshot.resolve_label_id(label) {
+                for iid in snapshot.nodes() {
+                    let has_label = snapshot
+                        .resolve_node_labels(iid)
+                        .is_some_and(|labels| labels.contains(&label_id));
+                    if !has_label {
+                        continue;
+                    }
+                    if let Some(value) = snapshot.node_property(iid, field) {
+                        existing.push((encode_ordered_value(&to_storage(value)), iid));
+                    }
+                }
+            }
+        }
+
+        let mut catalog = self.index_catalog.lock().unwrap();
         let mut pager = self.pager.write().unwrap();
-        catalog.get_or_create(&mut pager, &name)?;
+        let def = catalog.get_or_create(&mut pager, &name)?;
+        if !existing.is_empty() {
+            let mut tree = crate::index::btree::BTree::load(def.root);
+            for (encoded, iid) in existing {
+                let mut key = Vec::with_capacity(4 + encoded.len());
+                key.extend_from_slice(&def.id.to_be_bytes());
+                key.extend_from_slice(&encoded);
+                tree.insert(&mut pager, &key, iid as u64)?;
+            }
+            if let Some(entry) = catalog.entries.get_mut(&name) {
+                entry.root = tree.root();
+            }
+        }
         catalog.flush(&mut pager)?;
         Ok(())
     }
